@@ -130,8 +130,18 @@ def key_matches(pattern: str, key: str) -> bool:
 
         lead = re.match(r'^(\[[^\]]*\])*', key).group(0)
         return pattern[:-1] in lead
-    if pattern.endswith('*'):
-        return key.startswith(pattern[:-1])
+    if '*' in pattern:
+        # plain glob: '*' matches any run of characters, everything else literally
+        parts = pattern.split('*')
+        if not key.startswith(parts[0]):
+            return False
+        pos = len(parts[0])
+        for part in parts[1:-1]:
+            i = key.find(part, pos)
+            if i < 0:
+                return False
+            pos = i + len(part)
+        return key.endswith(parts[-1]) and len(key) - len(parts[-1]) >= pos
     return key == pattern
 
 
